@@ -220,6 +220,10 @@ func genValRepr(r *Rand, oid uint32, fam string) Val {
 	case "ts", "tstz":
 		v.I = genInt(r, -63082281600000000, 252455615999999999) // year 1 .. 9999 in microseconds
 	}
+	if fam == "text" && v.S != "" && r.Chance(1, 25) {
+		// strings that look like the text form of other types are still strings
+		v.S = r.Pick("+Inf", "-Inf", "Infinity", "-Infinity", "NaN", "true", "f", "NULL", "\\N", "0", "-0", "\\x00", "infinity", "1e5")
+	}
 	if fam == "tstz" && r.Chance(1, 3) {
 		// the handler's time.Time lives in a zone of its own, also one that is
 		// not a whole number of hours away from UTC
